@@ -9,7 +9,7 @@
    cell st j q = the (offset, length) range of that element, is_cell = "same buffer and same range"
    (the sharing relation of the abstract list-of-arrays model: two list entries are the same array). *)
 From Coq Require Import ZArith List Bool Arith Lia.
-From NV Require Import C15.Model C15.ListLemmas C15.Invariant C15.Steps C15.Steps2 C15.Lemmas.
+From NV Require Import C15.Model C15.ListLemmas C15.Invariant C15.Steps C15.Steps2 C15.Lemmas C15.Lemmas2 C15.Simulation.
 Import ListNotations.
 
 (* offsets/lengths inside the written prefix <= capacity, every buffer carries one ascending chain
@@ -138,29 +138,62 @@ Theorem C15_own_contents_setitem_scalar : forall st i ix v, reachable st -> is_l
 Proof. exact set_idx_scalar_cells. Qed.
 Print Assumptions C15_own_contents_setitem_scalar.
 
-(* seq_i[idx] = seq_j.  FULL STATEMENT (any j) is not proved: when j is on the SAME buffer as i the
-   element-by-element copy reads rows it has just written (s[::-1] = s), and an element-wise shape
-   mismatch raises after a partial assignment; for those cases only C15_wellformed is proved.
-   Proved here: j on another buffer and no element-wise ValueError (rows_assigned / compat mirror
-   NumPy's one-row broadcasting): the value of every element of every object afterwards. *)
-Theorem C15_own_contents_setitem_seq_partial : forall st i ix j ps, reachable st ->
+(* seq_i[idx] = seq_j for ANY j (another buffer, the same buffer — s[::-1] = s —, a ValueError raised
+   mid-way after a partial assignment): result and the value of every element of every object
+   afterwards are those of the abstract loop abs_seq over a valuation of the cells of i's buffer
+   (element after element; a source on the same buffer is read from the CURRENT valuation) *)
+Theorem C15_own_contents_setitem_seq : forall st i ix j ps, reachable st ->
   is_live st i = true -> is_live st j = true ->
-  sbuf (getseq st j) <> sbuf (getseq st i) ->
   positions (length (offs (getseq st i))) ix = Ok ps ->
   let dst := combine (pick 0 (offs (getseq st i)) ps) (pick 0 (lens (getseq st i)) ps) in
-  let src := pairs (getseq st j) in
-  let R := rows_of st (sbuf (getseq st j)) in
+  let bi := sbuf (getseq st i) in
+  let jb := sbuf (getseq st j) in
   length ps = length (offs (getseq st j)) ->
   sum (pick 0 (lens (getseq st i)) ps) = sum (lens (getseq st j)) ->
-  compat dst src R ->
+  let a := abs_seq h_assign (jb =? bi) (rows_of st jb) (val0 st bi) dst (pairs (getseq st j)) in
   let st' := fst (step st (OSetIdx i ix (VSeq j))) in
-  snd (step st (OSetIdx i ix (VSeq j))) = ROk /\ seqs st' = seqs st /\
+  snd (step st (OSetIdx i ix (VSeq j))) = match snd a with None => ROk | Some e => RErr e end /\
+  seqs st' = seqs st /\
   forall x q, x < length (seqs st) -> q < length (offs (getseq st x)) ->
-    V st' x q = if sbuf (getseq st x) =? sbuf (getseq st i)
-                then match last_src (cell st x q) dst src R with Some v => v | None => V st x q end
-                else V st x q.
-Proof. exact set_idx_seq_cells. Qed.
-Print Assumptions C15_own_contents_setitem_seq_partial.
+    V st' x q = if sbuf (getseq st x) =? bi then fst a (cell st x q) else V st x q.
+Proof. exact set_idx_seq_full. Qed.
+Print Assumptions C15_own_contents_setitem_seq.
+
+(* seq_i <op>= seq_j for ANY j (independent, the same object, overlapping views of one buffer):
+   element after element in the order of i's elements, each step sees what the earlier ones wrote *)
+Theorem C15_own_contents_opseq_inplace : forall st i g j dt, reachable st ->
+  is_live st i = true -> is_live st j = true ->
+  length (lens (getseq st i)) = length (lens (getseq st j)) ->
+  sum (lens (getseq st i)) = sum (lens (getseq st j)) ->
+  offs (getseq st i) <> [] ->
+  let bi := sbuf (getseq st i) in
+  let jb := sbuf (getseq st j) in
+  let a := abs_seq (h_op (apply_fn2 g)) (jb =? bi) (rows_of st jb) (val0 st bi)
+                   (pairs (getseq st i)) (pairs (getseq st j)) in
+  let st' := fst (step st (OOpSeq i g j true dt)) in
+  snd (step st (OOpSeq i g j true dt)) = match snd a with None => ROk | Some e => RErr e end /\
+  seqs st' = seqs st /\
+  forall x q, x < length (seqs st) -> q < length (offs (getseq st x)) ->
+    V st' x q = if sbuf (getseq st x) =? bi then fst a (cell st x q) else V st x q.
+Proof. exact op_seq_inplace_full. Qed.
+Print Assumptions C15_own_contents_opseq_inplace.
+
+(* seq_i <op> seq_j out of place: the new object holds the element-wise results (NumPy one-row
+   broadcasting, a shape mismatch is a refusal that changes nothing), nothing else changes *)
+Theorem C15_own_contents_opseq : forall st i g j dt, reachable st ->
+  is_live st i = true -> is_live st j = true ->
+  length (lens (getseq st i)) = length (lens (getseq st j)) ->
+  sum (lens (getseq st i)) = sum (lens (getseq st j)) ->
+  offs (getseq st i) <> [] ->
+  let st' := fst (step st (OOpSeq i g j false dt)) in
+  match op_seq_elems (apply_fn2 g) (C st i) (C st j) with
+  | Some els =>
+    snd (step st (OOpSeq i g j false dt)) = ROk /\ C st' (length (seqs st)) = els /\
+    (forall k, k < length (seqs st) -> getseq st' k = getseq st k /\ C st' k = C st k)
+  | None => snd (step st (OOpSeq i g j false dt)) = RErr EValue /\ st' = st
+  end.
+Proof. exact op_seq_copy_full. Qed.
+Print Assumptions C15_own_contents_opseq.
 
 (* in-place operator: value of every element of every object afterwards *)
 Theorem C15_own_contents_inplace : forall st i f dt, reachable st -> is_live st i = true ->
@@ -173,6 +206,21 @@ Theorem C15_own_contents_inplace : forall st i f dt, reachable st -> is_live st 
                 else V st j q.
 Proof. exact inplace_cells. Qed.
 Print Assumptions C15_own_contents_inplace.
+
+(* ---- simulation.  Abstract machine: per object (alive, Python list of arrays); spec_step is a
+   FUNCTION of that abstract state alone for construction, append (cache_build=False), extend of a
+   list / generator / sequence / itself, int / slice / list / mask indexing, view constructor, copy,
+   out-of-place operators with a scalar or a sequence operand, dropping an object — every refusal
+   included.  For every reachable state the abstraction commutes with the step; own contents AND
+   "nothing else changes" (growth isolation) for these operations are corollaries.  spec_step is
+   undefined (None) for cached builds (pending elements are not part of the visible lists),
+   concatenate (C15_own_contents_concatenate), and for assignments / in-place operators, whose
+   effect depends on which arrays are shared and on re-allocation: see the cell theorems. *)
+Theorem C15_simulation : forall st o a' r, reachable st -> no_pending st o ->
+  spec_step (absC st) o = Some (a', r) ->
+  absC (fst (step st o)) = a' /\ snd (step st o) = r.
+Proof. exact simulation. Qed.
+Print Assumptions C15_simulation.
 
 (* ---- growing a view, a copy or any derived sequence (append with or without cache_build,
    finalize_append, extend of a list / generator / sequence / itself) never changes any element
@@ -260,3 +308,14 @@ Example C15_nonvacuous :
   C (fst (step st (OSetInt 2 (-1) 99))) 0 = [[99; 99]; [3]; [4; 5; 6]; [7]; [8; 9]]%Z /\
   C (fst (step st (OSetInt 2 (-1) 99))) 1 = [[4; 5; 6]; [1; 2]; [4; 5; 6]]%Z.
 Proof. exact nonvacuous_example. Qed.
+
+(* overlapping views of one buffer: v = p[1:]; w = p[:-1]; v += w  gives p = [1, 3, 6, 10], and
+   p[::-1] -> p[:] = reversed view copies element after element *)
+Example C15_opseq_nonvacuous :
+  C (exec init [ONew 1 16 true [[1]; [2]; [3]; [4]]%Z; OGetIdx 0 (ISlice (Some 1%Z) None None);
+                OGetIdx 0 (ISlice None (Some (-1)%Z) None); OOpSeq 1 BAdd 2 true false]) 0
+    = [[1]; [3]; [6]; [10]]%Z /\
+  C (exec init [ONew 1 16 true [[1]; [2]; [3]; [4]]%Z; OGetIdx 0 (ISlice None None (Some (-1)%Z));
+                OSetIdx 0 (ISlice None None None) (VSeq 1)]) 0
+    = [[4]; [3]; [3]; [4]]%Z.
+Proof. vm_compute. split; reflexivity. Qed.
